@@ -44,6 +44,47 @@ int main(int argc, char **argv)
         {3, {"t", "-s", "TEST(G, N)"}, true, 0, false, true, true, 0, false},
         {2, {"t", "-s0"}, false, 0, false, false, false, 0, false},
     };
+    const char *mode = "";
+    for (int i = 1; i < argc; i++) if (!strchr(argv[i], '=')) mode = argv[i];
+    if (!strcmp(mode, "output")) {
+        /* the last -o decides: 0 eclipse, 1 junit, 2 teamcity */
+        struct O { int ac; const char *av[5]; bool ok; int kind; };
+        const O os[] = {
+            {2, {"t", "-ojunit"}, true, 1}, {2, {"t", "-oteamcity"}, true, 2}, {2, {"t", "-onormal"}, true, 0}, {2, {"t", "-oeclipse"}, true, 0},
+            {3, {"t", "-ojunit", "-onormal"}, true, 0}, {3, {"t", "-oteamcity", "-oeclipse"}, true, 0}, {4, {"t", "-o", "teamcity", "-onormal"}, true, 0},
+            {3, {"t", "-onormal", "-ojunit"}, true, 1}, {3, {"t", "-ojunit", "-oteamcity"}, true, 2}, {2, {"t", "-ofoo"}, false, 0},
+        };
+        for (size_t k = 0; k < sizeof(os) / sizeof(os[0]); k++) {
+            CommandLineArguments args(os[k].ac, os[k].av);
+            bool ok = args.parse(NULLPTR);
+            int kind = args.isJUnitOutput() ? 1 : args.isTeamCityOutput() ? 2 : args.isEclipseOutput() ? 0 : -1;
+            int b = (ok != os[k].ok) || (ok && kind != os[k].kind);
+            printf("%s:", b ? "DEVIATES" : "ok"); for (int i = 1; i < os[k].ac; i++) printf(" [%s]", os[k].av[i]);
+            printf(" -> accepted=%d kind=%d (want %d)\n", (int) ok, kind, os[k].kind);
+            bad += b;
+        }
+        if (bad) REPRODUCED("%d argument vectors do not get the documented output kind", bad);
+        NOT_REPRODUCED("output kind as documented (the last -o decides)");
+    }
+    if (!strcmp(mode, "filters")) {
+        struct F { const char *opt; bool name; bool strict; bool invert; };
+        const F fs[] = { {"-g", false, false, false}, {"-sg", false, true, false}, {"-xg", false, false, true}, {"-xsg", false, true, true},
+                         {"-n", true, false, false}, {"-sn", true, true, false}, {"-xn", true, false, true}, {"-xsn", true, true, true} };
+        for (size_t k = 0; k < sizeof(fs) / sizeof(fs[0]); k++) for (int attached = 0; attached < 2; attached++) {
+            char one[32]; snprintf(one, sizeof one, "%svalue", fs[k].opt);
+            const char *av[4] = {"t", attached ? one : fs[k].opt, "value", 0};
+            CommandLineArguments args(attached ? 2 : 3, av);
+            bool ok = args.parse(NULLPTR);
+            TestFilter want("value"); if (fs[k].strict) want.strictMatching(); if (fs[k].invert) want.invertMatching();
+            const TestFilter *mine = fs[k].name ? args.getNameFilters() : args.getGroupFilters();
+            const TestFilter *other = fs[k].name ? args.getGroupFilters() : args.getNameFilters();
+            int b = !ok || mine == NULLPTR || !(*mine == want) || mine->getNext() != NULLPTR || other != NULLPTR;
+            printf("%s: %s %s\n", b ? "DEVIATES" : "ok", fs[k].opt, attached ? "(attached value)" : "(separated value)");
+            bad += b;
+        }
+        if (bad) REPRODUCED("%d filter options do not build the documented filter", bad);
+        NOT_REPRODUCED("the eight filter options build the documented filters");
+    }
     for (size_t k = 0; k < sizeof(vs) / sizeof(vs[0]); k++) run(vs[k]);
     if (bad) REPRODUCED("%d argument vectors are not given their documented meaning", bad);
     NOT_REPRODUCED("all swept vectors have the documented meaning");
